@@ -4,7 +4,7 @@ from . import graphs
 
 
 def call(logic, K, f, naming='int', how=0, containers='list', form='obj', F=None,
-         kripke=None, objlang=None, raw_leaves=False, fshape='list-set'):
+         kripke=None, objlang=None, raw_leaves=False, fshape='list-set', atoms=None):
     """Run <logic>.modelcheck on the harness model K and the tuple formula f.
 
     form: 'obj' (object of `objlang`, default the checker's own language), 'shared' (the same, equal
@@ -14,6 +14,10 @@ def call(logic, K, f, naming='int', how=0, containers='list', form='obj', F=None
     Returns ('set', mask) | ('exc', class name, message) | ('bad', description).
     """
     L = fm.lang(logic)
+    if atoms is not None and fm.atom_map(atoms):
+        # the library sees the same structure and formula with the atoms spelled differently
+        K = km.rename_labels(K, fm.atom_map(atoms))
+        f = fm.rename_atoms(f, fm.atom_map(atoms))
     nm = graphs.NAMINGS[naming]
     back = dict((nm(i), i) for i in range(K['n']))
     if kripke is None:
@@ -65,6 +69,10 @@ def make_F(F, nm, fshape='list-set'):
     if fshape == 'list-set-out':
         # elements that are not states of K are legal members of a fairness set (never visited)
         return [set(P) | set(['not-a-state', ('out', 1)]) for P in sets]
+    if fshape == 'list-set-many-out':
+        # ... as many of them as to make every P larger than the whole state set (an F written for a
+        # bigger model and reused on a substructure)
+        return [set(P) | set(('elsewhere', k) for k in range(9)) for P in sets]
     if fshape == 'set-frozenset':
         return set(frozenset(P) for P in sets)
     if fshape == 'dict-values':
